@@ -220,9 +220,9 @@ def run(ck):
         ctxs = se.load_corpus("C02") + [se.normalize_ctx(c) for c in special_contexts(eng.ttl, eng.step)]
         # every multiset with a healthy majority (where ADD / DELETE are decided) is kept in full, the rest is sampled
         maj = lambda kinds: 2 * len([k for k in kinds if k in ("H0", "H1")]) > len(kinds)
-        one, full = se.gen_one_shard(ck, eng.ttl, eng.step, 5, 10000 if quick else 10 ** 9, kinds=KINDS, prefer=maj)
+        one, full = se.gen_one_shard(ck, eng.ttl, eng.step, 5, 10000 if quick else 10 ** 9, kinds=KINDS, prefer=maj, big_ids=0.3 if quick else 0.0)
         ctxs += one
-        ctxs += [se.gen_random_ctx(ck.rng, eng.ttl, eng.step) for _ in range(1500 if quick else 30000)]
+        ctxs += [se.gen_random_ctx(ck.rng, eng.ttl, eng.step, big_ids=0.4) for _ in range(1500 if quick else 30000)]
         pipe = pipeline_contexts(ck, 60 if quick else 1500, eng.ttl, eng.step)
         if pipe is None:
             return
